@@ -22,7 +22,6 @@ type WriteBufItem[K comparable, V any] struct {
 	code       int8
 	rechedule  bool
 	fromNVM    bool
-	nvmDirty   bool // UPDATE only, entry value changed and no longer same as secondary cache
 	hash       uint64
 	// used by WAIT only, closed by the maintenance goroutine
 	// once all items queued before this one are applied
@@ -44,6 +43,7 @@ type Entry[K comparable, V any] struct {
 	policyWeight int64          // Protected by the policy mutex.
 	expire       atomic.Int64   // Protected by the shard mutex.
 	flag         Flag           // Protected by the policy mutex.
+	nvmDirty     atomic.Bool    // Value was overwritten after it was read from the secondary cache, set with the shard mutex held.
 }
 
 // used in test only
